@@ -55,6 +55,8 @@ class Collector:
         """key: '<def-path>|<construct>' (no line numbers) — the rule id is prefixed here"""
         full = "%s|%s" % (rid, key)
         self.instance(rid, loc, key, False, msg)
+        if any(v["key"] == full for v in self.violations):
+            return  # one report per (rule, construct); further paths to the same construct add nothing
         self.violations.append({"rule": rid, "key": full, "loc": loc, "msg": msg, "detail": detail})
 
     def obligation(self, discharged):
